@@ -25,6 +25,8 @@ def sec_properties():
             out.append("*Verus units.* " + ", ".join("`units/%s.vc`" % u for u in P["units"]) + "\n")
         if P.get("kani"):
             out.append("*Kani harnesses.* " + "; ".join("`%s` (%s%s)" % (h["harness"], h["kind"], ", thorough tier only" if not h.get("quick", True) else "") for h in P["kani"]) + "\n")
+        if P.get("native_bounded"):
+            out.append("*Native bounded harnesses (a stated-bound stand-in on the real crates, section 2.6b; never counted as proved).* " + " ".join("`%s` (families %s): %s." % (h["dir"], ", ".join(h.get("families", [])), h["bound"]) for h in P["native_bounded"]) + "\n")
         out.append("*Assumed / trusted.* %s\n" % P["level_note"])
         if P.get("assumptions"):
             out.append("*Preconditions assumed of callers.* " + "; ".join(P["assumptions"]) + "\n")
